@@ -4,6 +4,7 @@ import (
 	"bytes"
 	"encoding/hex"
 	"strings"
+	"unicode/utf8"
 
 	"github.com/osteele/liquid/render"
 )
@@ -21,39 +22,88 @@ func (w *recWriter) Write(b []byte) (int, error) {
 	return len(b), nil
 }
 
-// twCase drives the REAL trimWriter (through the verif hook) with an operation list followed by
-// the final flush, and reports the underlying write calls.
+// twOp is one parsed operation of a case line: kind 'w' (with bytes), 'L', 'R' or 'F'.
+type twOp struct {
+	kind byte
+	b    []byte
+}
+
+func parseTwOps(opsF string) []twOp {
+	if opsF == "-" {
+		return nil
+	}
+	var ops []twOp
+	for _, f := range strings.Split(opsF, ",") {
+		o := twOp{kind: f[0]}
+		if o.kind == 'w' {
+			o.b, _ = hex.DecodeString(f[1:])
+		}
+		ops = append(ops, o)
+	}
+	return ops
+}
+
+func showTwOps(ops []twOp) string {
+	if len(ops) == 0 {
+		return "-"
+	}
+	parts := make([]string, len(ops))
+	for i, o := range ops {
+		parts[i] = string(o.kind)
+		if o.kind == 'w' {
+			parts[i] += hex.EncodeToString(o.b)
+		}
+	}
+	return strings.Join(parts, ",")
+}
+
+// runRealTW drives the REAL trimWriter (through the verif hook) with an operation list followed
+// by the final flush and returns the underlying write calls.
+func runRealTW(ops []twOp) [][]byte {
+	rw := &recWriter{}
+	tw := render.NewVerifTrimWriter(rw)
+	for _, o := range ops {
+		switch o.kind {
+		case 'w':
+			tw.Write(o.b)
+		case 'L':
+			tw.TrimLeft()
+		case 'R':
+			tw.TrimRight()
+		case 'F':
+			tw.Flush()
+		}
+	}
+	tw.Flush()
+	return rw.calls
+}
+
+// twCase runs the real trimWriter on the case, evaluates the C13 oracles on what it wrote, and
+// reports the underlying write calls (compared with TW.step of the model).
 func twCase(r *Run, opsF, caseLine string) string {
 	return guard(func() string {
-		rw := &recWriter{}
-		tw := render.NewVerifTrimWriter(rw)
-		var plain bytes.Buffer // what a marker-free run would have written
-		ops := strings.Split(opsF, ",")
-		if opsF == "-" {
-			ops = nil
-		}
-		for _, op := range ops {
-			switch op[0] {
+		ops := parseTwOps(opsF)
+		var plain bytes.Buffer  // what a marker-free run would have written
+		valid, trims := true, 0 // every write is valid UTF-8 (the hypothesis ValidOps of Proofs/C13.lean)
+		for _, o := range ops {
+			switch o.kind {
 			case 'w':
-				b, _ := hex.DecodeString(op[1:])
-				tw.Write(b)
-				plain.Write(b)
-			case 'L':
-				tw.TrimLeft()
-			case 'R':
-				tw.TrimRight()
-			case 'F':
-				tw.Flush()
+				plain.Write(o.b)
+				valid = valid && utf8.Valid(o.b)
+			case 'L', 'R':
+				trims++
 			}
 		}
-		tw.Flush()
-		var out bytes.Buffer
-		parts := make([]string, len(rw.calls))
-		for i, c := range rw.calls {
+		calls := runRealTW(ops)
+		parts := make([]string, len(calls))
+		for i, c := range calls {
 			parts[i] = "w" + hex.EncodeToString(c)
-			out.Write(c)
 		}
-		twOracle(r, caseLine, plain.Bytes(), out.Bytes())
+		out := bytes.Join(calls, nil)
+		twOracle(r, caseLine, plain.Bytes(), out, valid, trims)
+		if valid {
+			twAdjacentOracle(r, caseLine, ops, out)
+		}
 		if len(parts) == 0 {
 			return "-"
 		}
@@ -61,7 +111,18 @@ func twCase(r *Run, opsF, caseLine string) string {
 	})
 }
 
-var twPieces = []string{"", " ", "  ", "\n", "\t", "x", " x", "x ", " x ", " ", " y", "a b", "\r\n", "é ", " 😀", "\xc2", "\xa0", "\xe2\x80", " \xff ", "z"}
+// pieces for random writes: ASCII and Unicode whitespace (every class of unicode.IsSpace), near
+// misses that are NOT whitespace (U+200B, U+180E, U+FEFF, U+00A1, U+2027), text, and invalid UTF-8
+// (lone lead / continuation bytes that can join across writes, overlong and surrogate forms).
+var twPieces = []string{"", " ", "  ", "\n", "\t", "\v", "\f", "\r\n", "x", " x", "x ", " x ", "a b", "z",
+	"\u00a0", "\u0085", "\u1680", "\u2000", "\u2003y", "\u200a", "\u2028", "\u2029", "\u202f", "\u205f", "\u3000",
+	"\u200b", "\u180e", "\ufeff", "\u00a1", "\u2027", "\u3001",
+	"\u00e9 ", " \U0001F600", "\u00a0x\u00a0", " \u3000 ",
+	"\xc2", "\xa0", "\x85", "\xe2\x80", "\xe2", "\x80\xa8", "\xa8", "\xe3\x80", "\x80", " \xff ", "\xc0\xa0", "\xed\xa0\x80", "\xf0\x9f"}
+
+// alphabet of the exhaustive write enumeration: every string of at most two units over these
+// (NBSP as a whole rune, and its two bytes separately so that trimming can join them)
+var twUnits = []string{" ", "\n", "\u00a0", "x", "\xc2", "\xa0"}
 
 func twStream(r *Run) {
 	g := NewRNG(r.Seed, "tw")
@@ -83,26 +144,51 @@ func twStream(r *Run) {
 			r.Emit(c, twCase(r, f[1], c))
 		}
 	}
-	// exhaustive: all op lists of length <= 4 over a small op alphabet
-	alpha := []string{"L", "R", "F", "w", "w20", "w78", "w2078", "w7820", "w0a20"}
-	var rec func(prefix []string, n int)
-	rec = func(prefix []string, n int) {
+	var rec func(alpha, prefix []string, n int)
+	rec = func(alpha, prefix []string, n int) {
 		emit(prefix)
 		if n == 0 {
 			return
 		}
 		for _, a := range alpha {
-			rec(append(append([]string(nil), prefix...), a), n-1)
+			rec(alpha, append(append([]string(nil), prefix...), a), n-1)
 		}
 	}
-	depth := 4
+	// exhaustive 1: all op lists of length <= 5 (thorough: 6) over a small op alphabet
+	alpha := []string{"L", "R", "F", "w", "w20", "w78", "w2078", "w7820", "w0a20"}
+	depth := 5
 	if r.Tier == "thorough" {
-		depth = 5
+		depth = 6
 	}
-	rec(nil, depth)
-	n := 20000
+	rec(alpha, nil, depth)
+	// exhaustive 2: all op lists of length <= 3 (thorough: 4) whose writes are all strings of <= 2 units
+	// over twUnits (43 writes + L, R, F)
+	wide := []string{"L", "R", "F", "w"}
+	for _, a := range twUnits {
+		wide = append(wide, "w"+hex.EncodeToString([]byte(a)))
+		for _, b := range twUnits {
+			wide = append(wide, "w"+hex.EncodeToString([]byte(a+b)))
+		}
+	}
+	depth = 3
 	if r.Tier == "thorough" {
-		n = 200000
+		depth = 4
+	}
+	rec(wide, nil, depth)
+	// exhaustive 3: the shapes behind the adjacency theorems with every pair of wide writes:
+	// w1 [R] w2 L, w1 R [L|F] w2, w1 R w2 R w3 (quick: the first two)
+	ws := wide[3:]
+	for _, w1 := range ws {
+		for _, w2 := range ws {
+			emit([]string{w1, "R", w2, "L", "w78"})
+			emit([]string{w1, "R", "L", w2, "L"})
+			emit([]string{w1, "R", "F", w2, "L"})
+			emit([]string{w1, "L", "R", w2, "w78", "L"})
+		}
+	}
+	n := 50000
+	if r.Tier == "thorough" {
+		n = 500000
 	}
 	for i := 0; i < n; i++ {
 		k := g.Intn(12)
@@ -117,7 +203,7 @@ func twStream(r *Run) {
 				ops[j] = "F"
 			default:
 				s := g.Pick(twPieces)
-				if g.Chance(30) {
+				for g.Chance(30) {
 					s += g.Pick(twPieces)
 				}
 				ops[j] = "w" + hex.EncodeToString([]byte(s))
